@@ -841,7 +841,7 @@ impl WorldA {
                             exp_allow[o][s].0
                         ),
                     );
-                } else if !touched_cell && post.allow[o][s].1 != pre.allow[o][s].1 {
+                } else if !touched_cell && post.allow[o][s].0 != 0 && post.allow[o][s].1 != pre.allow[o][s].1 {
                     self.viol(
                         out,
                         "C02",
@@ -1287,7 +1287,7 @@ impl World for WorldA {
             0
         };
         // initial balances
-        let n_init = rng.range(0, nusers as u64) as usize;
+        let n_init = if rng.chance(2, 3) { nusers } else { rng.range(0, nusers as u64) as usize };
         let mut init_bal: Vec<Value> = vec![];
         let mut total: u128 = 0;
         for u in users.iter().take(n_init) {
@@ -1520,8 +1520,19 @@ impl World for WorldA {
                 script: vec![(format!("sink{}", si), SinkAct::Call(msgs))],
             };
         }
-        let actor = self.pick_actor(rng);
-        let msg = self.gen_token_msg(rng, &actor, &w);
+        let mut actor = self.pick_actor(rng);
+        let mut msg = self.gen_token_msg(rng, &actor, &w);
+        if msg.get("mint").is_some() || msg.get("update_minter").is_some() {
+            // mostly the real minter, sometimes former minters and strangers
+            if let Some(Some((m, _))) = self.obs.as_ref().map(|o| o.minter.clone()) {
+                if rng.chance(2, 3) && self.users.contains(&m) {
+                    actor = m;
+                    if msg.get("mint").is_some() {
+                        msg = self.gen_token_msg(rng, &actor, &[0, 0, 0, 1, 0, 0, 0, 0, 0, 0]);
+                    }
+                }
+            }
+        }
         let script = self.gen_script(rng, &msg);
         let fault = if self.cfg.faults && rng.chance(1, 8) {
             let target = if rng.chance(1, 2) { self.token.clone() } else { rng.pick(&self.sinks).clone() };
